@@ -263,7 +263,9 @@ func Slice.Less
   requires nonul(a[i].Version) && nonul(a[i].Revision) && nonul(a[j].Version) && nonul(a[j].Revision)
   ensures result == (vspec(a[i], a[j]) < 0)
 
-property C02: Slice.Len, Slice.Swap, Slice.Less, Compare,
+// the order laws hold for Compare because Compare equals the spec: C02 re-checks that link (order, verrevcmp) as well
+property C02: Slice.Len, Slice.Swap, Slice.Less, Compare, cisdigit, cisalpha, order, verrevcmp,
+  lemma val_nonneg, lemma val_mono, lemma peel_zero, lemma longer_wins,
   lemma lex_refl, lemma lex_antisym, lemma lex_exhausted, lemma lex_trans,
   lemma vcmp_refl, lemma vcmp_antisym, lemma vcmp_exhausted, lemma vcmp_trans, lemma vcmp_cong,
   lemma vspec_refl, lemma vspec_antisym, lemma vspec_trans, lemma vspec_cong
